@@ -42,16 +42,23 @@ var imports = map[string][]importSpec{
 		{"C15", `^C15\.string$`, ``, "a name field that overflows its 30 octets overwrites the neighbouring field of the encoding"},
 	},
 	"C03": {
+		{"C02", `^C02\.layout$`, `knxnet\.TunnelRes|knxnet\.TunnelReq`, "the acknowledgement a sender waits for is decoded from the frame the gateway sent, the request is encoded as the gateway expects"},
 		{"C16", `^C16\.T3$`, `TunnelSocket`, "every (re)transmission leaves the socket as the bytes of that request: a send buffer shared between the tunnel's goroutines is torn by a concurrent acknowledgement or heartbeat"},
 		{"C09", `^C09\.H7$`, `new epoch|success only`, "sequence numbers start at 0 after every (re)connect: the connect function resets the counter on every successful path"},
+		{"C10", `^C10\.K5$`, `Lock Tunnel\.seqMu`, "Send returns no later than the response timeout: the sender lock is released on every path, otherwise the next Send never gets it"},
 	},
 	"C04": {
+		{"C02", `^C02\.layout$`, `knxnet\.TunnelRes|knxnet\.TunnelReq`, "a request is recognised as such and its acknowledgement encoded as the gateway expects"},
+		{"C02", `^C02\.(layout|dispatch)$`, `^knxnet\.UnpackHeader|^knxnet\.Unpack `, "every frame is received through the header decoder and the service dispatcher"},
 		{"C01", `^C01\.c$`, kTunnelPath, "a telegram handed to Inbound must not change afterwards: the UDP receiver reuses one buffer for every datagram"},
 		{"C16", `^C16\.T1$`, ``, "every request the gateway transmits reaches the handler: TCP framing by header peek and exact read, datagram buffer large enough for the longest frame"},
 		{"C16", `^C16\.T2$`, ``, "every decoded request is forwarded to the tunnel client exactly once"},
 		{"C02", `^C02\.dispatch$`, `cemi`, "a request with the expected number is delivered whatever its message code: the cEMI decoder has a catch-all"},
+		{"C09", `^C09\.H6$`, `ends for good`, "no accepted telegram is lost while the tunnel is open: a received frame never terminates the tunnel"},
 	},
 	"C05": {
+		{"C02", `^C02\.layout$`, `knxnet\.TunnelRes|knxnet\.TunnelReq`, "requests and acknowledgements survive the wire"},
+		{"C02", `^C02\.(layout|dispatch)$`, `^knxnet\.UnpackHeader|^knxnet\.Unpack `, "every frame is received through the header decoder and the service dispatcher"},
 		{"C03", `^C03\.`, ``, "per-exchange sender rules (one request outstanding, identical retransmissions, counter advanced by the matching acknowledgement only)"},
 		{"C04", `^C04\.`, ``, "per-request receiver rules (deliver and acknowledge the expected number once, re-acknowledge the previous one, counter restarted with the connection)"},
 		{"C01", `^C01\.c$`, kTunnelPath, "an accepted telegram must not change after acceptance (receive buffer reuse)"},
@@ -67,6 +74,9 @@ var imports = map[string][]importSpec{
 		{"C08", `^C08\.range$`, `IsValid`, "encoders gate on IsValid: a validity predicate that rejects an in-range value makes it unencodable, one that accepts an out-of-range value yields an encoding the decoder rejects"},
 	},
 	"C09": {
+		{"C02", `^C02\.layout$`, `knxnet\.(ConnRes|ConnReq|ConnStateRes|ConnStateReq|DiscReq|DiscRes)`, "connect, connection-state and disconnect frames are decoded as the gateway sent them (a connect response is only usable with its endpoint decoded under status 0)"},
+		{"C02", `^C02\.(layout|dispatch)$`, `^knxnet\.UnpackHeader|^knxnet\.Unpack `, "every frame is received through the header decoder and the service dispatcher"},
+		{"C10", `^C10\.K5$`, `requestConn Lock`, "a reconnect must not block for ever on the sender lock"},
 		{"C04", `^C04\.R7$`, `pushInbound (immediate|overflow)`, "heartbeat ticker and responses are served by the loop that delivers inbound telegrams: that loop must never block on the application"},
 	},
 	"C10": {
@@ -77,6 +87,8 @@ var imports = map[string][]importSpec{
 		{"C01", `^C01\.[bc]$`, `^(\(\*)?cemi\.`, "decoding extracts exactly the transmitted fields: the decoded frame owns its bytes and the decoder stays within its input"},
 	},
 	"C12": {
+		{"C14", `^C14\.Q2$`, `transmits`, "a group event handed to a group router is transmitted"},
+		{"C02", `^C02\.(layout|dispatch)$`, `^knxnet\.UnpackHeader|^knxnet\.Unpack `, "every frame is received through the header decoder and the service dispatcher"},
 		{"C11", `^C11\.(encode|decode)$`, ``, "group events are carried by L_Data frames: command, addresses, flags and payload sit where the decoder of the receiving client looks for them"},
 		{"C04", `^C04\.R[257]$`, ``, "an inbound indication surfaces as a group event only if the tunnel client accepts and delivers it (expected number, restarted with the connection, never dropped)"},
 		{"C14", `^C14\.Q6$`, ``, "an inbound routing indication surfaces only if the router client hands it over exactly once"},
@@ -87,22 +99,27 @@ var imports = map[string][]importSpec{
 		{"C14", `^C14\.Q6$`, `pushInbound`, "busy indications are taken in by the loop that delivers inbound telegrams: that loop must never block on the application"},
 	},
 	"C14": {
+		{"C02", `^C02\.(layout|dispatch)$`, `^knxnet\.UnpackHeader|^knxnet\.Unpack `, "every frame is received through the header decoder and the service dispatcher"},
 		{"C16", `^C16\.T[12]$`, `serveUDPSocket`, "every routing indication the socket receives reaches the client: buffer large enough, every decoded frame forwarded once"},
 		{"C13", `^C13\.P3$`, `lock on every path|one timer release`, "the send lock taken for a busy period is released exactly once: otherwise no Send ever gets through again (or the process dies unlocking twice)"},
 		{"C01", `^C01\.c$`, kRouterPath, "a delivered indication must not change afterwards"},
 	},
 	"C16": {
+		{"C02", `^C02\.(layout|dispatch)$`, `^knxnet\.UnpackHeader|^knxnet\.Unpack `, "every frame is received through the header decoder and the service dispatcher"},
 		{"C01", `^C01\.c$`, ``, "a frame surfaced on Inbound owns its bytes: the receiver reuses its buffer for the next datagram"},
 		{"C15", `^C15\.size-pack$`, ``, "Send emits one complete well-formed frame: the encoder determines every byte of the buffer it is given, from no state shared between calls"},
 		{"C09", `^C09\.H1$`, `keeps the caller's other settings`, "the connect request advertises the local endpoint when configured to: the configuration normaliser hands SendLocalAddress through"},
 	},
 	"C17": {
+		{"C02", `^C02\.(layout|dispatch)$`, `^knxnet\.UnpackHeader|^knxnet\.Unpack `, "every frame is received through the header decoder and the service dispatcher"},
 		{"C04", `^C04\.R7$`, ``, "hand-over to Inbound: offered once, parked once, never dropped or duplicated"},
 		{"C14", `^C14\.Q6$`, ``, "the same for the router client"},
 		{"C16", `^C16\.T2$`, ``, "the socket receiver forwards frames in arrival order from one place"},
 		{"C01", `^C01\.c$`, kBothPaths, "a telegram waiting for the application must not be overwritten by the next datagram"},
 	},
 	"C20": {
+		{"C02", `^C02\.layout$`, `knxnet\.(SearchRes|DescriptionRes|DeviceInformationBlock|HostInfo|ServiceFamily)`, "the returned responses carry what the server sent"},
+		{"C02", `^C02\.(layout|dispatch)$`, `^knxnet\.UnpackHeader|^knxnet\.Unpack `, "every frame is received through the header decoder and the service dispatcher"},
 		{"C01", `^C01\.c$`, kDiscovery, "a returned response owns its bytes (the socket's receive buffer is reused for whatever arrives next)"},
 		{"C16", `^C16\.T[12]$`, `serveUDPSocket`, "every response that arrives before the timeout is surfaced once, in arrival order"},
 	},
